@@ -50,6 +50,8 @@ class PipeCore(object):
         self.on_frame = None      # callable(meta, who) when the last byte of a device frame was consumed
         self.overreads = 0
         self.last_timeouts = []
+        self.defer = False        # explicit device steps: complete host frames wait in h2d_q until dev_recv()
+        self.h2d_q = []
 
     # ---- helpers
     def _call(self, kind, detail=None):
@@ -121,7 +123,7 @@ class PipeCore(object):
             self.rec.ev('br', n=n, k=k, over=over, left=avail)
         if not self.cur and k:
             m = self.cur_meta
-            self.rec.ev('rd', n=m['n'])
+            self.rec.ev('rd', **m['pk'])
             if self.on_frame:
                 self.on_frame(m)
         return out
@@ -178,7 +180,15 @@ class PipeCore(object):
                              nul=(len(payload) > 0 and payload[-1] == 0 and (len(payload) < 2 or payload[-2] != 0)))
             ev['_payload'] = payload
             ev['_raw'] = raw
-            self.dev.feed(raw)
+            if self.defer:
+                self.h2d_q.append(dict(cmd=ev['cmd'], a0=h['a0'], a1=h['a1'], raw=raw))
+            else:
+                self.dev.feed(raw)
+
+
+    def dev_recv(self):
+        h = self.h2d_q.pop(0)
+        self.dev.feed(h['raw'])
 
 
 class Watchdog(BaseException):
